@@ -10,15 +10,17 @@ import DustVerif.Props.C40
                                     when no declarator has more than one dimension;
     * `C41_type_mapping_partial`, `C41_type_mapping_injective_partial`   base types: the Rust type is the one of the XTypes kind
                                     (all spellings except `wchar`, `octet`);
-    * `C41_annotations_partial`     key / id / optional reach the derive macro for a member with one declarator and at most one
-                                    of these annotations; `C41_struct_header_partial` likewise for extensibility / qualified name;
+    * `C41_annotations`             key / id / optional reach the derive macro for EVERY declarator of EVERY member (full since the
+                                    repairs D-gen-14 / D-gen-15); `C41_struct_header` likewise extensibility / qualified name (D-gen-14 / 16);
     * `C41_describe_names`          composition with C40: the published description of the generated struct lists the declared
-                                    member names in order; `C41_describe_flags_partial` the flags.
+                                    member names in order; `C41_describe_flags` the flags.
 
     FALSE for the code as it is (Lean witness, replayed on the real compiler in vlib/gen_idl.py `corpus`, known finding):
-      multi-dimensional arrays (D-gen-11), bounds dropped (D-gen-10), wchar / wstring (D-gen-12), octet (D-gen-13), only the first
-      #[dust_dds] attribute is read (D-gen-14), annotations reach only the first declarator (D-gen-15), annotated unions are a
-      syntax error (D-gen-22), typedef arrays panic (D-gen-23), @bit_bound spelling (D-gen-24), `>>` (D-gen-29). -/
+      multi-dimensional arrays (D-gen-11), bounds dropped (D-gen-10), wchar / wstring (D-gen-12), octet (D-gen-13), annotated unions
+      are a syntax error (D-gen-22), typedef arrays panic (D-gen-23), `>>` (D-gen-29).
+    REPAIRED in follow-up 2 (model = repaired code, old behaviour kept as `…_old_counterexample` on `…Old` functions):
+      only the first #[dust_dds] attribute was read (D-gen-14), annotations reached only the first declarator (D-gen-15),
+      @extensibility(..) ignored (D-gen-16), @bit_bound spelling (D-gen-24), TRUE / FALSE constants (D-gen-28). -/
 namespace DustVerif.Idl
 open DustVerif.Derive
 
@@ -27,7 +29,7 @@ open DustVerif.Derive
 theorem mapDecls_names (depth : Nat) (ty : TypeSpec) (isOpt : Bool) : ∀ (attrs : List FAttr) (ds : List Declr),
     (mapDecls depth ty isOpt attrs ds).map (·.name) = ds.map (·.name)
   | _, [] => rfl
-  | attrs, d :: r => by simp [mapDecls, mapDecls_names depth ty isOpt [] r]
+  | attrs, d :: r => by simp [mapDecls, mapDecls_names depth ty isOpt attrs r]
 
 theorem declaredOfMember_names (depth : Nat) (m : Member) : ∀ ds : List Declr,
     (declaredOfMember depth m ds).map (·.1) = ds.map (·.name)
@@ -63,7 +65,7 @@ theorem mapDecls_pairs (depth : Nat) (m : Member) : ∀ (attrs : List FAttr) (ds
     have h1 : d.dims.length ≤ 1 := h d (by simp)
     have h2 : ∀ d' ∈ r, d'.dims.length ≤ 1 := fun d' hd => h d' (by simp [hd])
     simp only [mapDecls, List.map_cons, declaredOfMember, pairOf, fieldImage, wrapArray_eq_image _ _ h1]
-    rw [← mapDecls_pairs depth m [] r h2]
+    rw [← mapDecls_pairs depth m attrs r h2]
 
 theorem mapMembers_pairs (depth : Nat) : ∀ ms : List Member, (∀ m ∈ ms, ∀ d ∈ m.decls, d.dims.length ≤ 1) →
     (mapMembers depth ms).map pairOf = declaredFields depth ms
@@ -177,74 +179,121 @@ theorem C41_type_mapping_structure (depth : Nat) (t : TypeSpec) (n : Option Nat)
 
 /-! ### annotations -/
 
-def fKey : List FAttr → Bool
-  | [] => false
-  | .key :: _ => true
-  | _ :: r => fKey r
-def fOptional : List FAttr → Bool
-  | [] => false
-  | .optional :: _ => true
-  | _ :: r => fOptional r
-def fId : List FAttr → Option Nat
-  | [] => none
-  | .id n :: _ => some n
-  | _ :: r => fId r
-
 theorem ann_views : ∀ anns : List MAnn,
-    hasKey anns = fKey (anns.filterMap mannAttr) ∧ hasOptional anns = fOptional (anns.filterMap mannAttr) ∧
-    firstId anns = fId (anns.filterMap mannAttr)
-  | [] => ⟨rfl, rfl, rfl⟩
+    hasKey anns = attrKey (anns.filterMap mannAttr) ∧ hasOptional anns = attrOptional (anns.filterMap mannAttr)
+  | [] => ⟨rfl, rfl⟩
   | a :: r => by
-    obtain ⟨h1, h2, h3⟩ := ann_views r
-    cases a <;> simp [hasKey, hasOptional, firstId, List.filterMap_cons, mannAttr, fKey, fOptional, fId, h1, h2, h3]
+    obtain ⟨h1, h2⟩ := ann_views r
+    cases a <;> simp [hasKey, hasOptional, List.filterMap_cons, mannAttr, attrKey, attrOptional, h1, h2]
 
-/-- key / id / optional of a member reach the derive macro — for a member with ONE declarator that carries AT MOST ONE of these
-    annotations (others, like @external, do not count). EXCLUDED: two or more of them on one member (only the first
-    `#[dust_dds(..)]` attribute is parsed, D-gen-14) and further declarators (the attributes are written before the first one only, D-gen-15). -/
-theorem C41_annotations_partial (depth : Nat) (m : Member) (d : Declr) (hd : m.decls = [d])
-    (h1 : (m.anns.filterMap mannAttr).length ≤ 1) :
-    (mapMember depth m).map fieldAttr = [declaredAttr m d] := by
-  obtain ⟨v1, v2, v3⟩ := ann_views m.anns
-  simp only [mapMember, hd, mapDecls, List.map_cons, List.map_nil, fieldAttr, declaredAttr, v1, v2, v3]
-  generalize List.filterMap mannAttr m.anns = as at h1
-  match as, h1 with
-  | [], _ => simp [fKey, fOptional, fId]
-  | [x], _ => cases x <;> simp [fKey, fOptional, fId]
-  | _ :: _ :: _, h => simp at h
+theorem attrId_none : ∀ anns : List MAnn, idCount anns = 0 → attrId (anns.filterMap mannAttr) = none
+  | [], _ => rfl
+  | a :: r, h => by
+    cases a <;> simp [idCount, List.filterMap_cons, mannAttr, attrId] at h ⊢ <;> exact attrId_none r h
 
-example : (({ anns := [.other "external", .id 7], ty := .base .long, decls := [{ name := "a", dims := [] }] } : Member).anns.filterMap mannAttr).length ≤ 1 := by decide
+theorem attrId_first : ∀ anns : List MAnn, idCount anns ≤ 1 → attrId (anns.filterMap mannAttr) = firstId anns
+  | [], _ => rfl
+  | a :: r, h => by
+    cases a with
+    | id n =>
+      have hr : idCount r = 0 := by simp [idCount] at h; omega
+      simp [List.filterMap_cons, mannAttr, attrId, firstId, attrId_none r hr]
+    | key => simpa [idCount, List.filterMap_cons, mannAttr, attrId, firstId] using attrId_first r (by simpa [idCount] using h)
+    | optional => simpa [idCount, List.filterMap_cons, mannAttr, attrId, firstId] using attrId_first r (by simpa [idCount] using h)
+    | other x => simpa [idCount, List.filterMap_cons, mannAttr, attrId, firstId] using attrId_first r (by simpa [idCount] using h)
 
-/-- D-gen-14 — `@key @id(5) long a;`: two attributes `#[dust_dds(key)] #[dust_dds(id = 5)]` are generated and the derive reads
-    only the first: the id is lost; with `@id(9) @key` the KEY is lost.
-    D-gen-15 — `@key long k1, k2;`: the attribute is written before `k1` only. -/
-theorem C41_annotations_counterexample :
-    (mapMember 0 { anns := [.key, .id 5], ty := .base .long, decls := [{ name := "a", dims := [] }] }).map fieldAttr
+theorem mapDecls_attrs (depth : Nat) (ty : TypeSpec) (isOpt : Bool) (attrs : List FAttr) : ∀ ds : List Declr,
+    (mapDecls depth ty isOpt attrs ds).map fieldAttr =
+      ds.map (fun d => ({ name := d.name, key := attrKey attrs, id := attrId attrs, optional := attrOptional attrs,
+                          nonSerialized := false, hashid := false } : FieldAttr))
+  | [] => rfl
+  | d :: r => by simp [mapDecls, fieldAttr, mapDecls_attrs depth ty isOpt attrs r]
+
+/-- REPAIRED (fixes/D-gen-14.patch + fixes/D-gen-15.patch) — FULL statement: the key / id / optional annotations of a member
+    reach the derive macro for EVERY declarator of the member, whatever their number and order (only IDL's own rule is
+    assumed: at most one @id per member). -/
+theorem C41_annotations (depth : Nat) (m : Member) (h1 : idCount m.anns ≤ 1) :
+    (mapMember depth m).map fieldAttr = m.decls.map (declaredAttr m) := by
+  obtain ⟨v1, v2⟩ := ann_views m.anns
+  simp only [mapMember, mapDecls_attrs, ← v1, ← v2, attrId_first m.anns h1]
+  rfl
+
+example : idCount [MAnn.key, .other "external", .id 7, .optional] ≤ 1 := by decide
+
+example : (mapMember 0 { anns := [.id 9, .key], ty := .base .long, decls := [{ name := "k1", dims := [] }, { name := "k2", dims := [] }] }).map fieldAttr
+    = [{ name := "k1", key := true, id := some 9, optional := false, nonSerialized := false, hashid := false },
+       { name := "k2", key := true, id := some 9, optional := false, nonSerialized := false, hashid := false }] := by decide
+
+/-- regression witness D-gen-14 — AS IT WAS, `@key @id(5) long a;` produced `#[dust_dds(key)] #[dust_dds(id = 5)]` and the derive read
+    only the first attribute: the id was lost; with `@id(9) @key` the KEY was lost.
+    regression witness D-gen-15 — `@key long k1, k2;`: the attribute was written before `k1` only. -/
+theorem C41_annotations_old_counterexample :
+    (mapDeclsOld 0 (.base .long) false [.key, .id 5] [{ name := "a", dims := [] }]).map fieldAttrOld
       = [{ name := "a", key := true, id := none, optional := false, nonSerialized := false, hashid := false }] ∧
-    (mapMember 0 { anns := [.id 9, .key], ty := .base .long, decls := [{ name := "b", dims := [] }] }).map fieldAttr
+    (mapDeclsOld 0 (.base .long) false [.id 9, .key] [{ name := "b", dims := [] }]).map fieldAttrOld
       = [{ name := "b", key := false, id := some 9, optional := false, nonSerialized := false, hashid := false }] ∧
-    ((mapMember 0 { anns := [.key], ty := .base .long, decls := [{ name := "k1", dims := [] }, { name := "k2", dims := [] }] }).map fieldAttr).map (·.key)
+    ((mapDeclsOld 0 (.base .long) false [.key] [{ name := "k1", dims := [] }, { name := "k2", dims := [] }]).map fieldAttrOld).map (·.key)
       = [true, false] := by decide
 
-/-- Extensibility and qualified type name reach the derive macro when the struct carries no extensibility shortcut (then: `final`
-    and, inside modules, the `::`-qualified name) or is declared at the root with exactly one shortcut.
-    EXCLUDED: a shortcut on a struct inside a module (`C41_struct_header_counterexample`, D-gen-14: the name attribute comes second). -/
-theorem C41_struct_header_partial (mods : List String) (s : StructDef) :
-    (s.anns.filterMap sannExt = [] →
-      (structHdr (mapStruct mods s)).ext = .final ∧
-      (structHdr (mapStruct mods s)).rename = (if mods.isEmpty then none else some (qualified mods s.name))) ∧
-    (∀ e, mods = [] → s.anns.filterMap sannExt = [.ext e] →
-      (structHdr (mapStruct mods s)).ext = e ∧ (structHdr (mapStruct mods s)).rename = none) := by
-  refine ⟨?_, ?_⟩
-  · intro h
-    cases hm : mods.isEmpty <;> simp [structHdr, mapStruct, h, hm]
-  · intro e hm h
-    subst hm
-    simp [structHdr, mapStruct, h]
+theorem sannExt_eq (a : SAnn) : sannExt a = (annDeclaresExt a).map SAttr.ext := by
+  cases a with
+  | ext e => rfl
+  | other n =>
+    simp only [sannExt, annDeclaresExt]
+    split <;> simp_all
 
-/-- D-gen-14 — `module Mo { @mutable struct Attrs {..}; };`: the DDS type name `Mo::Attrs` is lost -/
-theorem C41_struct_header_counterexample :
-    (structHdr (mapStruct ["Mo"] { name := "Attrs", anns := [.ext .mutable], members := [] })).rename = none ∧
-    (mapStruct ["Mo"] { name := "Attrs", anns := [.ext .mutable], members := [] }).attrs = [.ext .mutable, .name "Mo::Attrs"] := by decide
+theorem lastName_exts (t : List SAttr) : ∀ anns : List SAnn, lastName (anns.filterMap sannExt ++ t) = lastName t
+  | [] => rfl
+  | a :: r => by
+    rw [List.filterMap_cons, sannExt_eq]
+    cases annDeclaresExt a <;> simp [lastName, lastName_exts t r]
+
+theorem lastExt_none (t : List SAttr) (ht : lastExt t = none) : ∀ anns : List SAnn, extCount anns = 0 →
+    lastExt (anns.filterMap sannExt ++ t) = none
+  | [], _ => by simpa using ht
+  | a :: r, h => by
+    rw [List.filterMap_cons, sannExt_eq]
+    cases hd : annDeclaresExt a with
+    | none => simp [extCount, hd] at h; simpa using lastExt_none t ht r h
+    | some e => simp [extCount, hd] at h
+
+theorem lastExt_declared (t : List SAttr) (ht : lastExt t = none) : ∀ anns : List SAnn, extCount anns ≤ 1 →
+    (lastExt (anns.filterMap sannExt ++ t)).getD .final = declaredExt anns
+  | [], _ => by simp [ht, declaredExt]
+  | a :: r, h => by
+    rw [List.filterMap_cons, sannExt_eq]
+    cases hd : annDeclaresExt a with
+    | none =>
+      simp [extCount, hd] at h
+      simpa [declaredExt, hd] using lastExt_declared t ht r h
+    | some e =>
+      have hr : extCount r = 0 := by simp [extCount, hd] at h; omega
+      simp [declaredExt, hd, lastExt, lastExt_none t ht r hr]
+
+/-- REPAIRED (fixes/D-gen-14.patch, fixes/D-gen-16.patch) — FULL statement: for EVERY struct, the derive macro sees the qualified DDS
+    type name whenever the struct is inside modules, and the declared extensibility — shortcut or `@extensibility(..)` spelling —
+    (only IDL's own rule is assumed: at most one extensibility annotation). -/
+theorem C41_struct_header (mods : List String) (s : StructDef) :
+    (structHdr (mapStruct mods s)).rename = (if mods.isEmpty then none else some (qualified mods s.name)) ∧
+    (extCount s.anns ≤ 1 → (structHdr (mapStruct mods s)).ext = declaredExt s.anns) := by
+  refine ⟨?_, ?_⟩
+  · simp only [structHdr, mapStruct, lastName_exts]
+    cases mods.isEmpty <;> simp [lastName]
+  · intro h
+    simp only [structHdr, mapStruct]
+    apply lastExt_declared _ _ s.anns h
+    cases mods.isEmpty <;> simp [lastExt]
+
+example : extCount [SAnn.other "topic", .ext .mutable, .other "nested"] ≤ 1 := by decide
+example : (structHdr (mapStruct ["Mo"] { name := "Attrs", anns := [.other "extensibility:APPENDABLE"], members := [] })).ext = .appendable ∧
+    (structHdr (mapStruct ["Mo"] { name := "Attrs", anns := [.ext .mutable], members := [] })).rename = some "Mo::Attrs" := by decide
+
+/-- regression witness D-gen-14 — AS IT WAS, `module Mo { @mutable struct Attrs {..}; };` lost the DDS type name `Mo::Attrs` (the
+    name attribute comes second); regression witness D-gen-16 — `@extensibility(MUTABLE)` was not recognised at all -/
+theorem C41_struct_header_old_counterexample :
+    (structHdrOld (mapStruct ["Mo"] { name := "Attrs", anns := [.ext .mutable], members := [] })).rename = none ∧
+    (mapStruct ["Mo"] { name := "Attrs", anns := [.ext .mutable], members := [] }).attrs = [.ext .mutable, .name "Mo::Attrs"] ∧
+    sannExtOld (.other "extensibility:MUTABLE") = none := by decide
 
 /-! ### composition with C40: the published description -/
 
@@ -298,14 +347,14 @@ theorem C41_describe_names (cur : List String) (env : Env) (mods : List String) 
           simp [hn, structHdr, fieldAttr]
     · cases h
 
-/-- … with the declared key / optional flags when every member has one declarator and at most one of @key / @id / @optional -/
-theorem C41_describe_flags_partial (cur : List String) (env : Env) (depth : Nat) (m : Member) (d : Declr) (hdr : StructHdr)
-    (hd : m.decls = [d]) (h1 : (m.anns.filterMap mannAttr).length ≤ 1) (fs : Fields)
+/-- … with the declared key / optional / must-understand flags (one member, one declarator shown; any annotations) -/
+theorem C41_describe_flags (cur : List String) (env : Env) (depth : Nat) (m : Member) (d : Declr) (hdr : StructHdr)
+    (hd : m.decls = [d]) (h1 : idCount m.anns ≤ 1) (fs : Fields)
     (h : elabFields cur env (mapMember depth m) = some fs) :
     ∃ i, (describe (.struct hdr fs)).infos = [i] ∧ i.key = hasKey m.anns ∧ i.optional = hasOptional m.anns ∧
       i.mustUnderstand = hasKey m.anns := by
   have hattrs := elabFields_attrs cur env _ fs h
-  rw [C41_annotations_partial depth m d hd h1] at hattrs
+  rw [C41_annotations depth m h1, hd] at hattrs
   obtain ⟨_, _, _, _, hlen, hget⟩ := C40_describe_faithful hdr fs
   obtain ⟨i, hi, _, _, hk, ho, hmu, _⟩ := hget 0 (declaredAttr m d) (by simp [hattrs])
   refine ⟨i, ?_, by simp [hk, declaredAttr], by simp [ho, declaredAttr], by simp [hmu, declaredAttr]⟩
@@ -325,9 +374,32 @@ theorem C41_union_annotation_counterexample :
 theorem C41_typedef_array_counterexample :
     outcome (.cons (.typedef (.base .long) [{ name := "Arr3", dims := [3] }]) .nil) = .panic := by decide
 
-/-- D-gen-24 — `@bit_bound(8) enum Small { A, B };` is written as `#[dust_dds(bit_bound( 8))]`, which the derive rejects -/
-theorem C41_bit_bound_counterexample :
-    outcome (.cons (.enum { name := "Small", bitBound := some 8, enumerators := [("A", none), ("B", none)] }) .nil) = .rustc := by decide
+/-- D-gen-24, REPAIRED (fixes/D-gen-24.patch): `@bit_bound(8) enum Small { A, B };` is written as `#[dust_dds(bit_bound = "8")]` and
+    compiles to an enumeration held in an INT8 -/
+theorem C41_bit_bound :
+    outcome (.cons (.enum { name := "Small", bitBound := some 8, enumerators := [("A", none), ("B", none)] }) .nil) = .ok ∧
+    (types (.cons (.enum { name := "Small", bitBound := some 8, enumerators := [("A", none), ("B", none)] }) .nil)).map
+      (fun e => (describe e.2).kind) = [.enum] ∧
+    ∀ e : RustEnum, e.bitBoundAttr = some 16 → ∀ t, elabEnum e = some t → t = .enum { ident := e.name, rename := e.nameAttr, nested := false, bits := 16, variants := e.variants, dflt := 0 } := by
+  refine ⟨by decide, by decide, ?_⟩
+  intro e he t ht
+  simp only [elabEnum, he, Option.getD_some] at ht
+  split at ht
+  · split at ht
+    · cases ht; rfl
+    · cases ht
+  · cases ht
+
+/-- regression witness: AS IT WAS, `#[dust_dds(bit_bound( 8))]` was written and every enum with @bit_bound failed to compile -/
+theorem C41_bit_bound_old_counterexample (e : RustEnum) (n : Nat) (h : e.bitBoundAttr = some n) : elabEnumOld e = none := by
+  simp [elabEnumOld, h]
+
+/-- D-gen-28, REPAIRED (fixes/D-gen-28.patch): `const boolean Flag = TRUE;` compiles (`TRUE` is written `true`);
+    regression witness: AS IT WAS it did not -/
+theorem C41_boolean_constant :
+    outcome (.cons (.const { name := "Flag", ty := .base .boolean, text := "TRUE" })
+      (.cons (.struct { name := "S", anns := [], members := [{ anns := [], ty := .base .long, decls := [{ name := "a", dims := [] }] }] }) .nil)) = .ok ∧
+    constCompilesOld (.prim .bool) = false := by decide
 
 /-- D-gen-29 — `sequence<string<8>> names;`: `8>>` is read as a shift expression -/
 theorem C41_shift_counterexample :
